@@ -262,6 +262,7 @@ impl StorageBackend for MonBackend {
         let mut g = self.lock();
         g.cur_seq = seq;
         let ok = Self::enter(&mut g, Kind::Write, offset, data.len() as u64);
+        hdr_log_note(g.calls - 1, offset, data); // C08 S2 (add-only): bytes of header writes, inert unless started
         let end = offset.checked_add(data.len() as u64);
         if end.is_none() || end.unwrap() > g.data.len() as u64 {
             let m = format!("write {}+{} beyond len {}", offset, data.len(), g.data.len());
@@ -1329,3 +1330,26 @@ pub fn hop_summary(op: &HOp) -> String {
 
 /// WriteTransaction is used only through the runner; keep the type referenced
 pub type Wtx = WriteTransaction;
+
+// ------------------------------------------------------------------------------------------------
+// C08 S2 (fault-aware commit model): the bytes of every database-header write (offset 0, 320 bytes) with the
+// number of the backend call that carried it. Per thread, inert unless `hdr_log_start` was called on the thread.
+pub const DB_HEADER_LEN: usize = 320;
+std::thread_local! {
+    static HDR_LOG: std::cell::RefCell<Option<Vec<(u64, Vec<u8>)>>> = const { std::cell::RefCell::new(None) };
+}
+pub fn hdr_log_start() {
+    HDR_LOG.with(|l| *l.borrow_mut() = Some(vec![]));
+}
+pub fn hdr_log_take() -> Vec<(u64, Vec<u8>)> {
+    HDR_LOG.with(|l| l.borrow_mut().take().unwrap_or_default())
+}
+pub fn hdr_log_note(call: u64, offset: u64, data: &[u8]) {
+    if offset == 0 && data.len() == DB_HEADER_LEN {
+        HDR_LOG.with(|l| {
+            if let Some(v) = l.borrow_mut().as_mut() {
+                v.push((call, data.to_vec()));
+            }
+        });
+    }
+}
